@@ -11,6 +11,70 @@ import QV.Proofs.ServerSignedTable
 namespace QV.ServerScan
 open QV QV.Spec.Server QV.Spec.ServerTsig QV.Wire QV.Reader QV.Writer
 
+/-- what the delimitation of a record says about its extent -/
+theorem delim_extent (req : Bytes) (pos : Nat) (d : Spec.Server.Delim) (h : Spec.Server.specDelimit req pos = some d) :
+    d.pos = pos ∧ d.next = d.ownerEnd + 10 + d.rdlen ∧ d.next ≤ req.size := by
+  rw [specDelimit_eq] at h
+  split at h
+  · split at h
+    · rename_i hc
+      simp only [Option.some.injEq] at h
+      rw [← h]
+      exact ⟨rfl, rfl, hc.2⟩
+    · cases h
+  · cases h
+
+
+theorem walk_pos_ge (msg : Bytes) : ∀ (n pos : Nat) (d : Delim), walk msg n pos = some d → pos ≤ d.pos := by
+  intro n
+  induction n with
+  | zero => intro pos d h; simp [walk] at h
+  | succ n ih =>
+    intro pos d h
+    unfold walk at h
+    cases hd : specDelimit msg pos with
+    | none => rw [hd] at h; cases h
+    | some d0 =>
+      rw [hd] at h
+      simp only at h
+      obtain ⟨e1, e2, _⟩ := delim_extent msg pos d0 hd
+      split at h
+      · cases h; omega
+      · have := ih d0.next d h
+        have : d0.ownerEnd ≥ d0.pos := by
+          rw [specDelimit_eq] at hd
+          split at hd
+          · split at hd
+            · simp only [Option.some.injEq] at hd; rw [← hd]; simp
+            · cases hd
+          · cases hd
+        omega
+
+theorem scanPlain_ge (msg : Bytes) : ∀ (n pos p2 : Nat), scanPlain msg n pos = some p2 → pos ≤ p2 := by
+  intro n
+  induction n with
+  | zero => intro pos p2 h; simp only [scanPlain, Option.some.injEq] at h; omega
+  | succ n ih =>
+    intro pos p2 h
+    unfold scanPlain at h
+    cases hd : specDelimit msg pos with
+    | none => rw [hd] at h; cases h
+    | some d0 =>
+      rw [hd] at h
+      simp only at h
+      obtain ⟨e1, e2, _⟩ := delim_extent msg pos d0 hd
+      split at h
+      · cases h
+      · have := ih d0.next p2 h
+        have : d0.ownerEnd ≥ d0.pos := by
+          rw [specDelimit_eq] at hd
+          split at hd
+          · split at hd
+            · simp only [Option.some.injEq] at hd; rw [← hd]; simp
+            · cases hd
+          · cases hd
+        omega
+
 /-- the walk passes over the answer / authority records the scan accepted -/
 theorem walk_scanPlain (msg : Bytes) : ∀ (n pos p2 m : Nat), scanPlain msg n pos = some p2 → 1 ≤ m →
     walk msg (n + m) pos = walk msg m p2 := by
@@ -131,7 +195,7 @@ theorem findTsig_of_tsigReached (lookup : List UInt8 → Nat → Option ZoneKind
       specDelimit req d.pos = some d ∧
       scanPlain req (hdr req 6 + hdr req 8) p1 = some p2 ∧
       walk req (hdr req 10) p2 = some d ∧
-      (scanAr req S (hdr req 10) (hdr req 10) p2 false 512).1 = .tsig := by
+      (scanAr req S (hdr req 10) (hdr req 10) p2 false 512).1 = .tsig ∧ 12 ≤ d.pos := by
   rw [specScanWith_eq] at hr hv
   by_cases h12 : req.size < 12
   · simp only [h12, if_true] at hr; cases hr
@@ -173,7 +237,25 @@ theorem findTsig_of_tsigReached (lookup : List UInt8 → Nat → Option ZoneKind
           by_cases h0 : hdr req 10 = 0
           · rw [h0] at hw; simp [walk] at hw
           · omega
-        refine ⟨d, p1, p2, ?_, g1, g2, g3, g4, g5, g6, hpl, hw, by rw [hres]⟩
+        have hp1ge : 12 ≤ p1 := by
+          by_cases h0 : hdr req 4 = 0
+          · rw [if_pos h0] at hqres
+            simp only [Option.some.injEq, Prod.mk.injEq] at hqres
+            omega
+          · rw [if_neg h0] at hqres
+            cases hsq : Spec.specQuestionAt req 12 with
+            | none => rw [hsq] at hqres; cases hqres
+            | some v =>
+              obtain ⟨w, t, c, nx⟩ := v
+              rw [hsq] at hqres
+              simp only [Option.some.injEq, Prod.mk.injEq] at hqres
+              obtain ⟨p, _, _, hnx, _⟩ := specQuestionAt_some req 12 w t c nx hsq
+              omega
+        have hpos12 : 12 ≤ d.pos := by
+          have := scanPlain_ge req _ p1 p2 hpl
+          have := walk_pos_ge req _ p2 d hw
+          omega
+        refine ⟨d, p1, p2, ?_, g1, g2, g3, g4, g5, g6, hpl, hw, by rw [hres], hpos12⟩
         unfold findTsig
         simp only
         have hfin : walk req (hdr req 6 + hdr req 8 + hdr req 10) p1 = some d := by
